@@ -235,6 +235,14 @@ func lengthFlow(fn *ssa.Function, init lenState) map[*ssa.BasicBlock]lenState {
 							out[lp] = get(out, lp) & lenMaskFor(op, k)
 						}
 					}
+					// the nil-error arm of a validation helper: what the helper guarantees about the lengths of what it was given
+					if isNilConst(bo.Y) && (bo.Op == token.EQL || bo.Op == token.NEQ) {
+						if (bo.Op == token.EQL) == (si == 0) {
+							for p, m := range validatorPost(bo.X) {
+								out[p] = get(out, p) & m
+							}
+						}
+					}
 				}
 			}
 			// infeasible edge
@@ -551,3 +559,88 @@ func sortSites(s []panicSite) {
 
 var _ = types.Typ
 var _ = fmt.Sprint
+
+var lenPostMemo = map[*ssa.Function]map[int]map[string]uint32{}
+
+// helperLenPost: for an in-module helper whose last result is an error: per parameter, the lengths of the paths rooted
+// in that parameter (".Param") that are possible when the helper returns a nil error — the union over its nil-error
+// returns of its own length dataflow.
+func helperLenPost(h *ssa.Function) map[int]map[string]uint32 {
+	if m, ok := lenPostMemo[h]; ok {
+		return m
+	}
+	lenPostMemo[h] = nil
+	res := map[int]map[string]uint32{}
+	flow := lengthFlow(h, lenState{})
+	first := true
+	acc := map[string]uint32{}
+	allInstrs(h, func(in ssa.Instruction) {
+		ret, ok := in.(*ssa.Return)
+		if !ok || len(ret.Results) == 0 || retError(ret) == "nonnil" {
+			return
+		}
+		st, reached := flow[ret.Block()]
+		if !reached {
+			return
+		}
+		if first {
+			for k, v := range st {
+				acc[k] = v
+			}
+			first = false
+			return
+		}
+		for k := range acc {
+			if v, ok := st[k]; ok {
+				acc[k] |= v
+			} else {
+				delete(acc, k)
+			}
+		}
+	})
+	for k, v := range acc {
+		for i, p := range h.Params {
+			if strings.HasPrefix(k, p.Name()+".") {
+				if res[i] == nil {
+					res[i] = map[string]uint32{}
+				}
+				res[i][k[len(p.Name()):]] = v
+			}
+		}
+	}
+	lenPostMemo[h] = res
+	return res
+}
+
+// validatorPost: e is the error result of a call of an in-module helper; the length facts that hold for the
+// caller's values when that error is nil.
+func validatorPost(e ssa.Value) map[string]uint32 {
+	var call *ssa.Call
+	switch x := e.(type) {
+	case *ssa.Call:
+		call = x
+	case *ssa.Extract:
+		call, _ = x.Tuple.(*ssa.Call)
+		if call != nil && x.Index != call.Call.Signature().Results().Len()-1 {
+			return nil
+		}
+	}
+	if call == nil {
+		return nil
+	}
+	h := call.Call.StaticCallee()
+	if h == nil || !inModule(h) || len(h.Blocks) == 0 {
+		return nil
+	}
+	out := map[string]uint32{}
+	for i, m := range helperLenPost(h) {
+		if i >= len(call.Call.Args) {
+			continue
+		}
+		ap := path(call.Call.Args[i])
+		for suf, v := range m {
+			out[ap+suf] = v
+		}
+	}
+	return out
+}
